@@ -21,6 +21,9 @@ LEVEL = {
  "C16": ("model_checking", "PamsHalt (TLC): the state machine of the repaired rule for several rules / targets / sessions satisfies NoFillWithoutExec, NoCrash, HaltRespected, Resumed, SwitchRestored, StoppedOnlyByHalt; the as-found design is kept as a configuration that TLC must reject. TraceEvents (TLC) predicts from the reported fills when each target market must stop and resume and compares Market.is_running and the session switch at every step begin / end and acceptance; TraceBook: no fill on a market that is not running.", "5 C16"),
  "C17": ("model_checking", "TableEvents (TLC): weighted-sum lemmas. TraceEvents (TLC): at every step begin / end the index value cross-multiplied with the share total equals the share-weighted sum of the component market prices, and at every clock step the index fundamental equals the weighted component fundamentals for the new time (exact configurations; a harness side condition with relative 1e-12 covers the float division).", "5 C17"),
  "C18": ("model_checking", "PamsConfig transcribes the expansion rules as pure operators; TableConfig (TLC) checks the lemmas of Extend on EVERY inheritance graph over three names, a missing parent and two keys (72000 cases: chains, self / 2 / 3-cycles, missing parents, excluded keys). The same grids are run through the real json_extends, SequentialRunner._setup (counts, inclusive ranges incl. length 1 and 2, prefixes, inheritance, accessible markets), Session.setup (legacy keys), JsonRandom (every value shape, exact values with a stub generator, support with the real one) and find_class (built-in, registered, duplicate, unknown names); TraceConfig (TLC) compares every recorded outcome with the model.", "5 C18"),
+ "C07": ("exploration", "C07 is a hyperproperty (two runs of one (configuration, seed) agree). The product specification TraceDet (TLC) steps through pairs of complete observable records - every logger delivery with floats by bit pattern, user-agent notifications, price series, final holdings - and names the first difference; the pairs come from fresh processes with different PYTHONHASHSEED, a process whose global random / numpy.random state was perturbed and that ran a different simulation first, and two runs with the same settings object (which must stay unmodified). Configurations: all sample configurations (shortened) and generated ones with every built-in agent, market and event type and correlated fundamentals. TLC is the comparator here, not an explorer: exploration is the honest level.", "5 C07"),
+ "C12": ("model_checking", "PamsFundamentals (TLC): the generation discipline over value versions - prefix kept on regeneration, a change or shock at t rewrites nothing before t. TraceFund (TLC) replays that discipline along histories of gets (incl. chunk boundaries and small chunk sizes), parameter changes and shocks on the real Fundamentals / Market.change_fundamental_price, with the set of bit-exactly changed indices logged after every operation; the return law r = diag(vol) L z + drift is checked by TLC in rationals (L L^T = corr for Pythagorean rows) against log-returns observed with the NumPy generator replaced by chosen draws; zero-volatility closed form, positivity and 6-standard-error sampling checks are harness side conditions.", "5 C12"),
+ "C20": ("model_checking", "PamsAgents states the decision rules in scaled integers (sign of the FCN expected log-return on a geometric price grid, market-maker quotes, arbitrage trigger and basket); TableAgents (TLC) checks their lemmas over a grid; real FCN / MarketShareFCN / MarketMaker / Arbitrage agents are put on real markets brought to tabulated states and TraceAgents (TLC) compares the returned orders (count, side, market, volume, lifetime, owner, accessibility, exact quotes) with the rules; the FCN price is compared with an independent evaluation of the documented formula (side condition).", "5 C20"),
 }
 NOTE = {
  "C01": "Trusted: TLC, the Json module, the probes (harness/book_session.py) that project floats to integer units exactly (dyadic ticks) or by rounding (decimal ticks). Bounds: design model constants in spec/MC_PamsMarket_*.cfg; histories of 30-120 operations.",
@@ -44,6 +47,9 @@ TECH = {
  "C16": "TLA+ halt-rule state machine (TLC, repaired design accepted / as-found design rejected) + TLC trace validation of running flags and fills",
  "C17": "TLA+ weighted-sum lemmas (TLC) + TLC trace validation of index value and index fundamental against components",
  "C18": "TLA+ decision tables (TLC over all small inheritance graphs) replayed into the real configuration code, outcomes validated by TLC",
+ "C07": "differential execution under perturbed environments; TLA+ product specification (TLC) as event-by-event comparator",
+ "C12": "TLA+ version-model of regeneration (TLC) + TLC validation of change sets and of the rational return law against the real Fundamentals",
+ "C20": "TLA+ decision tables (TLC) replayed into real agent objects on real markets, returned orders validated by TLC",
 }
 
 def main():
